@@ -565,6 +565,25 @@ pub fn writer_scripts(
                         continue 'scripts;
                     }
                 }
+                // epilogue: if the script has published something else in between and the buffer has
+                // the length it had at the open, the last writes put the OPEN-TIME bytes back: the drop
+                // must publish them (a handle may not conclude from "same bytes as at the open" that
+                // there is nothing to publish)
+                if append && seeks_allowed && script.iter().any(|s| *s == WStep::Flush) {
+                    let open_bytes = prior.unwrap_or(b"");
+                    if model.get_ref().len() == open_bytes.len() && model.get_ref().as_slice() != open_bytes {
+                        *classes.entry("epilogue:open-time-bytes-written-back-after-a-flush".into()).or_insert(0) += 1;
+                        for s in [WStep::Seek(SeekFrom::Start(0)), WStep::WriteAll(open_bytes)] {
+                            let want = do_wstep(&mut model, &s);
+                            let got = do_wstep(h.as_mut(), &s);
+                            nsteps += 1;
+                            if want != got {
+                                vio.push(mk(format!("epilogue|{}|exp={}|got={}", wstep_name(&s), want.class(), got.class()), format!("after the script, step {:?} returned {:?}, a cursor returns {:?}", s, got, want), depth));
+                                continue 'scripts;
+                            }
+                        }
+                    }
+                }
                 if let Err(m) = guard(move || drop(h)) {
                     vio.push(mk("drop-panic".into(), format!("dropping the handle panicked: {}", m), depth));
                     continue;
